@@ -365,6 +365,37 @@ class PteraTransformer(NodeTransformer):
             self.linenos[target.id] = target.lineno
         ann_arg = ann if ann else ast.Constant(value=None)
         value_arg = self._get("ABSENT") if value is None else value
+        pre = []
+        if (
+            isinstance(target, ast.Subscript)
+            and isinstance(target.value, ast.Name)
+            and not isinstance(target.slice, (ast.Constant, ast.Slice))
+            and not expression
+            and self.should_instrument(target.value.id, ann)
+        ):
+            # Evaluate the value, then the index, exactly once each (the
+            # index is needed both for the Key and for the actual store)
+            vsym, ksym = _gensym(), _gensym()
+            pre = [
+                ast.Assign(
+                    targets=[ast.Name(id=vsym, ctx=ast.Store())],
+                    value=value_arg,
+                    lineno=orig.lineno,
+                    col_offset=orig.col_offset,
+                ),
+                ast.Assign(
+                    targets=[ast.Name(id=ksym, ctx=ast.Store())],
+                    value=target.slice,
+                    lineno=orig.lineno,
+                    col_offset=orig.col_offset,
+                ),
+            ]
+            value_arg = ast.Name(id=vsym, ctx=ast.Load())
+            target = ast.Subscript(
+                value=target.value,
+                slice=ast.Name(id=ksym, ctx=ast.Load()),
+                ctx=ast.Store(),
+            )
         if isinstance(target, ast.Name):
             value_args = [
                 target.id,
@@ -423,12 +454,13 @@ class PteraTransformer(NodeTransformer):
             )
         else:
             return [
+                *pre,
                 ast.Assign(
                     targets=[target],
                     value=new_value,
                     lineno=orig.lineno,
                     col_offset=orig.col_offset,
-                )
+                ),
             ]
 
     def visit_body(self, stmts):
